@@ -71,7 +71,27 @@ def parse_header(path):
     for o in obls:
         if not o.entry:
             raise RuntimeError("%s: obligation %s has no @entry" % (path, o.id))
-    return obls
+    # "// @shared_state_watch": the same symbolic execution is also run as a C06 obligation in which every store the
+    # code under test makes to process-wide mutable library state without a lock is a violation
+    extra = []
+    for o in obls:
+        if "shared_state_watch" in o.text and o.engine == "B":
+            d = Obl(path)
+            d.id = "C06.shared_state." + o.id
+            d.entry, d.engine, d.tier = o.entry, "B", o.tier
+            d.reach, d.funcs = list(o.reach), list(o.funcs)
+            d.opts = dict(o.opts, watch="1", only_lock="1", validate="0")
+            d.text = {
+                "bounds": "the paths of %s (%s), every store monitored while the code under test runs" % (o.id, o.text.get("bounds", "")),
+                "oracle": "engine state is per instance (C06): between the harness' vf_watch_shared_state(1) and (0) the real code "
+                          "stores only to the instance, to memory it owns, or to shared objects while a mutex (or the C++ "
+                          "one-time-initialisation guard) is held; a store to a namespace-scope / static variable of the library "
+                          "without a lock is reported and confirmed natively by putting the variable on a write-protected page",
+                "stubs": o.text.get("stubs", ""),
+                "outside": "loads of shared state; stores through pointers kept in shared variables; the other checks of %s (decided under %s)" % (o.id, o.prop),
+            }
+            extra.append(d)
+    return obls + extra
 
 
 def discover(prop=None):
@@ -141,6 +161,9 @@ def build_slice(path, entries, tier, log):
     nm = P.run(["llvm-nm-14", hb])
     open(os.path.join(wd, "harness_syms.txt"), "w").write("\n".join(
         ln.split()[-1] for ln in nm.splitlines() if len(ln.split()) >= 2 and ln.split()[-2] in "BbDdCc") + "\n")
+    # functions the harness defines itself (entries, stubs): their own stores are not the code under test
+    open(os.path.join(wd, "harness_funcs.txt"), "w").write("\n".join(
+        ln.split()[-1] for ln in nm.splitlines() if len(ln.split()) >= 2 and ln.split()[-2] in "Tt") + "\n")
     linked = os.path.join(wd, "linked.bc")
     P.run([P.LLVM_LINK, lib, "--override", hb, "-o", linked])
     api = ",".join(entries)
@@ -372,6 +395,11 @@ def _run_one(o, mod, dem, ll, wd, tier, seed, R, log, irsym):
     E.budget_s = float(opts.get("budget_s", 150)) * (8 if thorough else 1)
     E.presplit = opts.get("presplit", "1") == "1"
     E.layout_dir = wd
+    E.watch_enabled = opts.get("watch", "0") == "1"
+    E.watch_all = opts.get("only_lock") == "1" or bool(os.environ.get("VF_WATCH_ALL"))
+    hf = os.path.join(wd, "harness_funcs.txt")
+    if os.path.exists(hf):
+        E.harness_funcs = set(re.sub(r"\.\d+$", "", x) for x in open(hf).read().split())
     hs = os.path.join(wd, "harness_syms.txt")
     if os.path.exists(hs):
         E.harness_globals = set(re.sub(r"\.\d+$", "", x) for x in open(hs).read().split())
@@ -413,6 +441,19 @@ def _run_one(o, mod, dem, ll, wd, tier, seed, R, log, irsym):
         R["status"] = "error"
         R["error"] = "; ".join(res.errors)
         return
+    if opts.get("only_lock") == "1":
+        # C06 view of another obligation's entry: only the lock-discipline verdicts count here
+        res.cex = [c for c in res.cex if c.get("kind") == "lock"]
+        res.checks = {k: v for k, v in res.checks.items() if k.startswith("lock.discipline")}
+        if not getattr(res, "watch_regions", 0):
+            R["status"] = "error"
+            R["error"] = "the harness never switched the shared-state watch on (vf_watch_shared_state)"
+            return
+        res.checks["shared_state.stores_monitored_without_unlocked_store_to_process_wide_state"] = {
+            "unsat": 0, "sat": 0, "unknown": 0, "concrete_ok": getattr(res, "watched_writes", 0), "concrete_fail": 0}
+        R["checks"] = res.checks
+        R["watched_stores"] = getattr(res, "watched_writes", 0)
+        R["watched_stores_to_process_wide_objects_under_lock"] = getattr(res, "watched_global_writes_locked", 0)
     nchecks = sum(sum(d.values()) for d in res.checks.values())
     if nchecks == 0:
         R["status"] = "error"
